@@ -359,7 +359,16 @@ class HomeKitConnection:
         if self._start_reconnecting():
             # If we are running under a timeout, we still need to shield the
             # connector task so it continues to run if the timeout is hit.
-            await asyncio.shield(self._connector)
+            connector = self._connector
+            try:
+                await asyncio.shield(connector)
+            except asyncio.CancelledError:
+                cancelling = getattr(asyncio.current_task(), "cancelling", None)
+                if connector.cancelled() and not (cancelling and cancelling()):
+                    # close() stopped the connector while we were waiting for
+                    # it; the caller itself was not cancelled.
+                    raise AccessoryDisconnectedError("Connection closed while waiting for it") from None
+                raise
 
     async def _stop_connector(self) -> None:
         """
